@@ -114,6 +114,100 @@ def copy_independence(arg):
     return {"fails": fails, "copies": len(copies)}
 
 
+def shared_registry(arg):
+    """One Registry used for two plans (entries for nodes the plan being run does not contain): whatever
+    run / dry_run do with such a registry - succeed or refuse - they must not change it."""
+    seed = arg
+    import uberjob
+
+    rng = random.Random(seed)
+    fails = []
+
+    class St(uberjob.ValueStore):
+        def __init__(self):
+            self.v = None
+
+        def read(self):
+            return self.v
+
+        def write(self, v):
+            self.v = v
+
+        def get_modified_time(self):
+            return None
+
+    reg = uberjob.Registry()
+    plans = []
+    for _p in range(2):
+        plan = uberjob.Plan()
+        prev = None
+        for i in range(rng.randint(1, 3)):
+            prev = plan.call(lambda *a: len(a), *([prev] if prev is not None else []))
+            if rng.random() < 0.8:
+                reg.add(prev, St())
+        plans.append((plan, prev))
+    for plan, out in plans:
+        d0 = CS.registry_digest(reg), CS.plan_digest(plan)
+        for dry in (True, False):
+            try:
+                uberjob.run(plan, registry=reg, output=out, dry_run=dry, progress=None, max_workers=1)
+            except Exception:
+                pass
+            if (CS.registry_digest(reg), CS.plan_digest(plan)) != d0:
+                fails.append({"what": "registry_changed_by_run", "detail": f"dry_run={dry}: {len(d0[0])} entries before, {len(CS.registry_digest(reg))} after"})
+                return {"fails": fails}
+    return {"fails": fails}
+
+
+def scope_lock_independence(arg):
+    """While one thread is inside `with plan.scope(...)` on the original plan, runs of that plan (which work on a
+    private copy and enter scopes on it when a registry is given) and scopes on explicit copies must not wait for it."""
+    seed = arg
+    import threading
+
+    import uberjob
+
+    class St(uberjob.ValueStore):
+        def read(self):
+            return 1
+
+        def write(self, v):
+            pass
+
+        def get_modified_time(self):
+            return None
+
+    plan = uberjob.Plan()
+    reg = uberjob.Registry()
+    with plan.scope("s"):
+        a = plan.call(lambda: 1)
+    reg.add(a, St())
+    cp = plan.copy()
+    done = {"run": False, "copy": False}
+
+    def runner():
+        uberjob.run(plan, registry=reg, output=a, progress=None, max_workers=1)
+        done["run"] = True
+
+    def copier():
+        with cp.scope("t"):
+            cp.lit(1)
+        done["copy"] = True
+
+    fails = []
+    with plan.scope("held", seed):
+        ths = [threading.Thread(target=runner, daemon=True), threading.Thread(target=copier, daemon=True)]
+        for t in ths:
+            t.start()
+        for t in ths:
+            t.join(timeout=10)
+    if not done["run"]:
+        fails.append({"what": "run_waits_for_original_scope", "detail": "uberjob.run did not finish while another thread was inside plan.scope on the original"})
+    if not done["copy"]:
+        fails.append({"what": "copy_waits_for_original_scope", "detail": "entering a scope on a copy waited for the original's scope"})
+    return {"fails": fails}
+
+
 def run_extra(res, tier, seed):
     rng = random.Random(f"c13x-{seed}")
     cargs = [(seed * 104729 + i, rng.choice([2, 3]), rng.choice([{"kind": "random", "p": 0.15}, {"kind": "relyield", "q": 0.3}, {"kind": "pct", "depth": 3, "est_steps": 3000}]))
@@ -127,7 +221,17 @@ def run_extra(res, tier, seed):
     for a, o in zip(pargs, pouts):
         for f in o["fails"][:1]:
             res.add_violation(f"C13:copy:{f['what']}", f"Plan.copy / Registry.copy: {f['detail']}", {"extra": "copy", "arg": a, "failure": f})
-    res.merge_counts(evaluations=len(cargs) + len(pargs))
+    sargs = [seed * 15485863 + i for i in range(60 if tier == "quick" else 2000)]
+    souts = common.pmap(shared_registry, sargs)
+    for a, o in zip(sargs, souts):
+        for f in o["fails"][:1]:
+            res.add_violation(f"C13:shared_registry:{f['what']}", f"a Registry shared by two plans: {f['detail']}", {"extra": "shared_registry", "arg": a, "failure": f})
+    louts = common.pmap(scope_lock_independence, [seed, seed + 1], nproc=2)
+    for a, o in zip([seed, seed + 1], louts):
+        for f in o["fails"][:1]:
+            res.add_violation(f"C13:scope_lock:{f['what']}", f["detail"], {"extra": "scope_lock", "arg": a, "failure": f})
+    res.coverage["shared_registry_cases"] = len(sargs)
+    res.merge_counts(evaluations=len(cargs) + len(pargs) + len(sargs) + 2)
     res.coverage["concurrent_executions"] = len(cargs)
     res.coverage["concurrent_with_preemption"] = sum(1 for o in couts if o["preemptions"] > 0)
     res.coverage["copy_sequences"] = len(pargs)
@@ -138,4 +242,8 @@ def replay_extra(wit):
     if wit["extra"] == "concurrent":
         a = wit["arg"]
         return concurrent_runs((a[0], a[1], a[2]))["fails"]
+    if wit["extra"] == "shared_registry":
+        return shared_registry(wit["arg"])["fails"]
+    if wit["extra"] == "scope_lock":
+        return scope_lock_independence(wit["arg"])["fails"]
     return copy_independence(wit["arg"])["fails"]
